@@ -959,6 +959,15 @@ class Evaluator:
                         holder.fields[t.value.attr] = new
                 fr.effects.append(('setitem', base, k, v))
                 return
+            if isinstance(base, Obj) and base.ci is not None:
+                meth = self.m.method(base.ci, '__setitem__')
+                if meth is not None:
+                    # obj[k] = v on a repository class that defines __setitem__
+                    if meth.qualname in self.hooks:
+                        self.hooks[meth.qualname](self, [base, k, v], {})
+                    else:
+                        self.call(meth, [base, k, v], {}, fr.depth + 1)
+                    return
             if isinstance(base, Tup) and isinstance(k, Tup) and all(isinstance(i, sp.Integer) for i in k.items) \
                     and isinstance(v, Tup) and len(v.items) == len(k.items) and isinstance(t.value, ast.Name) \
                     and all(-len(base.items) <= int(i) < len(base.items) for i in k.items):
@@ -1491,6 +1500,10 @@ class Evaluator:
             for c in mro[mro.index(here) + 1:]:
                 if n.func.attr in c.methods:
                     return self.call(c.methods[n.func.attr], [fr.self_obj] + args, kwargs, fr.depth + 1)
+            if 'super:' + n.func.attr in self.hooks:
+                # a base class outside the repository (dict, list, ...): let the rule observe the call and its path condition
+                pc_now = list(self._stack[-1][1]) if self._stack else []
+                return self.hooks['super:' + n.func.attr](self, [fr.self_obj] + args, dict(kwargs, __pc__=pc_now))
             return Const(None)
         # method call on a value
         if isinstance(n.func, ast.Attribute):
